@@ -196,6 +196,35 @@ pub fn check(r: &Runner, ctx: &mut Ctx, l: &mut Local, rec: &CaseRec) -> Result<
 
 pub fn run(r: &Runner) {
     families_phase(r, "partial-prefixes", &|_e, _c| true, check);
+    // k leading empty lines then a start line cut / damaged within its first 15 bytes
+    {
+        const BAD: [u8; 6] = [0x00, 0x01, b'\r', b' ', 0x7f, b'\t'];
+        let per = 16 + 15 * BAD.len() as u64;
+        r.par_enum("k leading empty lines (0..=40, exact CRLF or mixed) × start line cut after 0..=15 bytes or with a bad byte at one of its first 15 positions, judged if Partial", 2 * 41 * 2 * per, |ctx, l, idx| {
+            let v = idx % per;
+            let mut x = idx / per;
+            let mixed = x % 2 == 1;
+            x /= 2;
+            let k = (x % 41) as usize;
+            let is_resp = x / 41 == 1;
+            let mut buf = Vec::new();
+            for i in 0..k {
+                buf.extend_from_slice(if mixed && i % 3 == 1 { b"\n" } else { b"\r\n" });
+            }
+            let line: &[u8] = if is_resp { b"HTTP/1.1 200 OK fine\r\n" } else { b"GET /index.html HTTP/1.1\r\n" };
+            if v < 16 {
+                buf.extend_from_slice(&line[..v as usize]);
+            } else {
+                let y = v - 16;
+                let pos = (y % 15) as usize;
+                let mut ln = line[..pos + 1].to_vec();
+                ln[pos] = BAD[(y / 15) as usize];
+                buf.extend_from_slice(&ln);
+            }
+            let rec = CaseRec::new("partial-one", if is_resp { Entry::RespParse } else { Entry::ReqParse }, 0, 8, buf);
+            check(r, ctx, l, &rec)
+        });
+    }
     static K: [Kind; 4] = ALL_KINDS;
     let g = GenSpec { kinds: &K, profile: Profile { truncate: 8, mutate: 100, ..Profile::DEFAULT }, generous_cap: true, cfg_mask: 0x7f, cfg_entry_only: false };
     r.par_random(
